@@ -40,8 +40,14 @@ fn output_size(
 
             // Rounding up can produce a final window which starts beyond the
             // end of the input. Exclude those positions.
+            //
+            // The executor drops at most one position (the rounded-up size minus
+            // one is always a valid size), so the limit never goes below that.
+            // The two differ only if the end padding is at least as large as
+            // the kernel.
             let max_size = (in_size + pad_start - one.clone()) / stride.clone() + one.clone();
-            (windowed_in_size.div_ceil(&stride) + one).min(&max_size)
+            let ceil_size = windowed_in_size.div_ceil(&stride);
+            (ceil_size.clone() + one).min(&ceil_size.max(&max_size))
         }
         DimPadding::Same => in_size.div_ceil(&stride),
     }
